@@ -180,6 +180,43 @@ fn check_tape(tape: &[u8], gates: &Gates, stats: &mut Stats, counting: bool) -> 
             reference = Some((which, o));
         }
     }
+    // the same file inside a set: a valid companion in ANOTHER encoding is read by the same process
+    // (before or after it); the observations for the file must not change
+    if let Some((_, r)) = &reference {
+        if choice.ratio(1, 3) {
+            let comp_text = "PROGRAM comp_zz9\nVAR\ncomp_v : INT; (* caf\u{e9} \u{20ac} *)\nEND_VAR\ncomp_v := 1;\nEND_PROGRAM\n";
+            let comp_enc = *choice.pick(&[4usize, 4, 2, 1, 0]);
+            let main_enc = choice.below(5);
+            if let (Some(cb), Some(mb)) = (encode(comp_text, comp_enc), encode(&text, main_enc)) {
+                let dir = Scratch::new("c14set");
+                // the companion's name sorts before or after the file's
+                let (cn, mn) = if choice.flag() { ("a_comp.st", "m_main.st") } else { ("z_comp.st", "m_main.st") };
+                let cp = dir.write(cn, &cb).to_string_lossy().to_string();
+                let mp = dir.write(mn, &mb).to_string_lossy().to_string();
+                let args = if choice.flag() { vec!["check".to_string(), cp.clone(), mp.clone()] } else { vec!["check".to_string(), mp.clone(), cp.clone()] };
+                let c = run_cli(&args, None);
+                if !c.timed_out {
+                    if counting {
+                        stats.class(&format!("set.companion-{}.file-{}", ENC_NAMES[comp_enc], ENC_NAMES[main_enc]));
+                    }
+                    let inputs = json!({"text": text, "encoding": ENC_NAMES[main_enc], "companion_encoding": ENC_NAMES[comp_enc], "companion": comp_text, "args": args[1..].iter().map(|a| a.rsplit('/').next().unwrap_or("").to_string()).collect::<Vec<_>>()});
+                    let mut diags: Vec<(String, usize, usize)> =
+                        parse_cli_diags(&c.stderr).into_iter().filter(|d| d.file.as_deref().map(|f| f.ends_with(mn)).unwrap_or(true)).map(|d| (d.code, d.line, d.col)).collect();
+                    diags.sort();
+                    // diagnostics without a position of their own (P9999, P0030) are attributed to an
+                    // arbitrary file of the set: compared by presence only
+                    let positioned = |v: &Vec<(String, usize, usize)>| -> Vec<(String, usize, usize)> { v.iter().filter(|d| d.0 != "P9999" && d.0 != "P0030").cloned().collect() };
+                    let (diags, rdiags) = (positioned(&diags), positioned(&r.diags));
+                    if c.status != r.status {
+                        return Err(Failure::new("encodings-set", "verdict-differs", format!("alone the file gives exit {:?}; next to a valid {} companion (file stored as {}) `check` exits {:?}", r.status, ENC_NAMES[comp_enc], ENC_NAMES[main_enc], c.status), inputs));
+                    }
+                    if diags != rdiags {
+                        return Err(Failure::new("encodings-set", "positions-differ", format!("alone: {:?}; next to a valid {} companion (file stored as {}): {:?}", rdiags, ENC_NAMES[comp_enc], ENC_NAMES[main_enc], diags), inputs));
+                    }
+                }
+            }
+        }
+    }
     if counting {
         if skipped_1252 {
             stats.class("encoding.windows-1252.skipped(bytes-valid-utf8)");
